@@ -53,9 +53,13 @@ def run_case(args):
     header = opts.get("header", False)
     delim = opts.get("delimiter") or rng.choice([",", "|", ";", "\t"])
     quote = opts.get("quote") or rng.choice(['"', '"', "'"])
+    fixed = opts.get("fixed")
+    if fixed:
+        types, header, delim, quote = fixed["types"], fixed["header"], fixed["delim"], fixed["quote"]
     res = dict(seed=seed, idx=idx, violations=[], types=types, rows=0, inconclusive=None, feats=set())
     d = scratch_dir("csv")
-    rl = RL("mem" if rng.random() < 0.7 else "disk")
+    engine = fixed["engine"] if fixed else ("mem" if rng.random() < 0.7 else "disk")
+    rl = RL(engine)
     try:
         cols = ", ".join(f"c{i} {t}" for i, t in enumerate(types))
         for name in ("t", "u"):
@@ -77,8 +81,11 @@ def run_case(args):
                 else:
                     row.append(lit(rng, t))
             rows.append("(" + ", ".join(row) + ")")
-        if rows:
-            r = rl.sql(f"insert into t values {', '.join(rows)}")
+        insert_sql = f"insert into t values {', '.join(rows)}" if rows else None
+        if fixed:
+            insert_sql, n = fixed["insert"], fixed["nrows"]
+        if insert_sql:
+            r = rl.sql(insert_sql)
             if not r["ok"]:
                 res["inconclusive"] = "insert rejected: " + r.get("err", "")[:80]
                 return res
@@ -97,6 +104,10 @@ def run_case(args):
         optsql = f" ({', '.join(['FORMAT CSV'] + o)})" if (o or rng.random() < 0.3) else ""
         f = os.path.join(d, "x.csv")
         use_query = rng.random() < 0.25
+        if fixed:
+            optsql, use_query = fixed["optsql"], fixed["use_query"]
+        res["case"] = dict(types=types, header=header, delim=delim, quote=quote, engine=engine, insert=insert_sql, nrows=n,
+                           optsql=optsql, use_query=use_query)
         srcsql = "(select * from t)" if use_query else "t"
         if use_query:
             res["feats"].add("copy-query")
@@ -144,7 +155,7 @@ def err_type(r, types):
 
 
 def sentinel(w):
-    res = run_case((w["seed"], w["idx"], w.get("opts", {})))
+    res = run_case((0, 0, {"fixed": w["case"]}))
     return [(v["signature"], v["what"]) for v in res["violations"]]
 
 
@@ -166,7 +177,7 @@ def run(tier, seed):
                 by_type[t] = by_type.get(t, 0) + 1
         rep.sample(dict(types=res["types"], rows=res["rows"], features=res["feats"]), limit=4)
         for v in res["violations"]:
-            rep.add_violation(Violation(v["signature"], v["what"], dict(seed=res["seed"], idx=res["idx"], opts={})))
+            rep.add_violation(Violation(v["signature"], v["what"], dict(case=res.get("case"))))
     run_sentinels(rep, sentinel)
     rep.coverage.update(tables_per_column_type=by_type)
     rep.floor("round trips with rows", len(rep.distinct), n // 4)
